@@ -1317,6 +1317,35 @@ def gen_stmt_block(rnd, nin=None):
             st = val + with_depth(a, 1) + [(rnd.choice(["MSTORE", "MSTORE8"]) if mem else "SSTORE", None)]
             stmts.insert(rnd.randrange(1, len(stmts)), st)
         return stmts, nin
+    if rnd.random() < 0.25:
+        # twin stores: the same store statement (same location, same value) twice, with one or two stores to that or
+        # an overlapping / possibly equal location in between and around -- identically written instructions whose
+        # position among the conflicting stores is all that tells them apart
+        mem = rnd.random() < 0.5
+        stn = rnd.choice(["MSTORE", "MSTORE8"]) if mem else "SSTORE"
+        val = [("DUP%d" % rnd.randrange(1, nin + 1), None)] if rnd.random() < 0.7 else [("PUSH", hexv(rnd.randrange(1, 300)))]
+        twin = val + with_depth(list(focus), 1) + [(stn, None)]
+
+        def other():
+            r_ = rnd.random()
+            if r_ < 0.35:
+                src = [("PUSH", hexv(0x20))] + with_depth(list(focus), 1) + [("KECCAK256", None)] if mem else list(focus) + [("SLOAD", None)]
+            elif r_ < 0.7:
+                src = [("PUSH", hexv(rnd.randrange(1, 300)))]
+            else:
+                src = [("DUP%d" % rnd.randrange(1, nin + 1), None)]
+            a = list(focus) if rnd.random() < 0.6 else rnd.choice([[("PUSH", hexv(rnd.choice(consts)))],
+                                                                   list(focus) + [("PUSH", hexv(rnd.choice([1, 0x1f, 0x20]))), ("ADD", None)]])
+            return src + with_depth(a, 1) + [(stn if rnd.random() < 0.8 else ("MSTORE" if mem else "SSTORE"), None)]
+        stmts = [list(twin)]
+        for _ in range(rnd.choice([0, 1])):
+            stmts.append(other())
+        stmts.append(list(twin))
+        for _ in range(rnd.choice([1, 1, 2])):
+            stmts.append(other())
+        if rnd.random() < 0.4:
+            stmts.insert(0, other())
+        return stmts, nin
     for _ in range(rnd.randrange(2, 6)):
         r = rnd.random()
         if r < 0.3:
